@@ -1321,7 +1321,7 @@ func (t *tScreen) buildAcsMap() {
 	var enter, exit strings.Builder
 	nopad.TPuts(&enter, t.ti.EnterAcs)
 	nopad.TPuts(&exit, t.ti.ExitAcs)
-	for len(acsstr) > 2 {
+	for len(acsstr) >= 2 { // pairs: glyph name, glyph byte
 		srcv := acsstr[0]
 		dstv := string([]byte{acsstr[1]}) // the glyph is a byte of the terminal's own set, not a rune
 		if r, ok := vtACSNames[srcv]; ok {
